@@ -21,8 +21,9 @@ Prop  (the property's own clauses, evaluated on the implementation's outputs)
       `X_eq = X / C` (resp. `X / R`) is formed exactly, `B_eq`, `A_eq` are B and A on exit and `s` is the
       factor that was applied to B (x4 for complex data).  With refinement on, a row may instead meet
       the componentwise backward error that the driver itself reports (`2 berr + g(n+3)`).
-Corr  `equed`, `R`, `C` against `Gssvx.equilStep` (gsequ + laqgs on A on entry) run at the case's
-      arithmetic type, bit for bit (R, C untouched when Equil = NO).
+Corr  `equed`, `R`, `C`, A and B on exit against the glue model `Gssvx.gssvx` (gsequ + laqgs on A on
+      entry, scaling of B) run at the case's arithmetic type, bit for bit (R, C untouched when
+      Equil = NO).
 
 SLU_NR with Trans = CONJ: the documented system is `A^H X = B`; if that fails while `A^T X = B`
 passes the case is reported with the fixed text of the open finding.
@@ -44,7 +45,7 @@ def solved (c : Case) : Bool :=
   (info == 0 || info == (n : Int) + 1) && c.pNat "nrhs" > 0
 
 section bits
-variable (K R : Type) [Mag K R] [Wire K] [FBits R] [Inhabited K] [Inhabited R]
+variable (K R : Type) [Mag K R] [Wire K] [FBits R] [Inhabited K] [Inhabited R] [HasConj K]
 variable [Zero R] [One R] [Mul R] [Div R] [LT R] [DecidableLT R] [LE R] [DecidableLE R] [BEq R]
 
 /-- bit-level clauses; returns (prop failure, corr failure) -/
@@ -54,7 +55,7 @@ def bitChecks (c : Case) (thresh : R) : Option String × Option String := Id.run
   let w : Nat := if c.isComplex then 2 else 1
   let es := Slu.Drv.Equil.mkEntries (K := K) n (c.nat "A0.colptr") (c.nat "A0.rowind") (Wire.dec (c.raw "A0.val"))
   let cmp (what : String) (e g : Array UInt64) (unit : Nat) : Option String :=
-    (firstDiff e g).map fun i => s!"{what}[{i / unit}] expected={showBits e i} returned={showBits g i}"
+    (firstDiff e g).map fun i => s!"{what}: differs bit-wise from the model of the documented behaviour at entry {i / unit}: expected={showBits e i} returned={showBits g i}"
   let rI : Nat → R := fun i => FBits.ofBits ((c.raw "R").getD i 0)
   let cI : Nat → R := fun j => FBits.ofBits ((c.raw "C").getD j 0)
   let some q := equedOf? (c.p "equed") | return (some s!"equed = '{c.p "equed"}' is not one of N R C B", none)
@@ -64,7 +65,7 @@ def bitChecks (c : Case) (thresh : R) : Option String × Option String := Id.run
   if c.p "Astype" ≠ (if o.rowStored then "2" else "0") then return (some "A->Stype was modified", none)
   if !o.equil ∧ q ≠ .N then return (some s!"Equil = NO but equed = {q.toChar}", none)
   let expA : Array UInt64 := Wire.enc (es.map (laqgsEntry q rI cI)).toArray
-  match cmp (if o.equil then s!"A on exit differs from the scaling named by equed={q.toChar}: nzval" else "Equil = NO but A was modified: nzval") expA (c.raw "A1.val") w with
+  match cmp (if o.equil then s!"A on exit is not A scaled as named by equed={q.toChar} (nzval)" else "Equil = NO but A was modified (nzval)") expA (c.raw "A1.val") w with
   | some m => return (some m, none)
   | none => pure ()
   -- P2
@@ -74,23 +75,32 @@ def bitChecks (c : Case) (thresh : R) : Option String × Option String := Id.run
   let which := if !solved c then "nothing was solved but B was modified" else
     if notran then (if Equed.rowequ q then "B on exit is not diag(R)*B" else s!"B was modified although notran and equed={q.toChar}")
     else (if Equed.colequ q then "B on exit is not diag(C)*B" else s!"B was modified although !notran and equed={q.toChar}")
-  match cmp (which ++ ": B") (Wire.enc expB) (c.raw "B1") w with
+  match cmp which (Wire.enc expB) (c.raw "B1") w with
   | some m => return (some m, none)
   | none => pure ()
   if c.p "Bdims" ≠ s!"{n} {nrhs} {ldb}" ∨ c.p "Xdims" ≠ s!"{n} {nrhs} {c.pNat "ldx"}" then return (some "the descriptors of B or X were modified", none)
-  -- Corr: equilibration outcome against the model run on A on entry
+  -- Corr: the whole glue model `Gssvx.gssvx` run on the inputs at the case's arithmetic type (the inner
+  -- solver is irrelevant for equed, R, C, A and B on exit)
   let sen : R := FBits.ofBits (Slu.Drv.Equil.sentinel (FBits.isDouble R))
   let sml : R := FBits.ofBits (c.raw "sml")[0]!
   let prec : R := FBits.ofBits (c.raw "prec")[0]!
   let small := sml / prec
   let M : Mach R := { sml := sml, big := 1 / sml, thresh := thresh, small := small, large := 1 / small }
-  let e := equilStep o.equil n es M (fun _ => sen) (fun _ => sen)
-  if e.equed ≠ q then return (none, some s!"equed model={e.equed.toChar} impl={q.toChar}")
+  let info := c.pInt "info"
+  let facOk := info == 0 || info == (n : Int) + 1
+  let out := gssvx true o M n nrhs ldb (c.pNat "ldx") es (fun _ => sen) (fun _ => sen) b0 (Wire.dec (c.raw "X0")) facOk (fun _ b => b)
+  if out.equed ≠ q then return (none, some s!"equed model={out.equed.toChar} impl={q.toChar}")
   let encR (f : Nat → R) : Array UInt64 := (Array.range n).map fun i => FBits.toBits (f i)
-  match cmp "R" (encR e.r) (c.raw "R") 1 with
+  match cmp "R" (encR out.r) (c.raw "R") 1 with
   | some m => return (none, some m)
   | none => pure ()
-  match cmp "C" (encR e.c) (c.raw "C") 1 with
+  match cmp "C" (encR out.c) (c.raw "C") 1 with
+  | some m => return (none, some m)
+  | none => pure ()
+  match cmp "model A on exit" (Wire.enc out.aout.toArray) (c.raw "A1.val") w with
+  | some m => return (none, some m)
+  | none => pure ()
+  match cmp "model B on exit" (Wire.enc out.bout) (c.raw "B1") w with
   | some m => return (none, some m)
   | none => pure ()
   return (none, none)
